@@ -33,8 +33,8 @@ Definition eobs_eqb (a b : eobs) : bool :=
   | Appended n t p q r, Appended n' t' p' q' r' => Nat.eqb n n' && String.eqb t t' && String.eqb p p' && (q =? q') && Bool.eqb r r'
   | AppendFailed n, AppendFailed n' => Nat.eqb n n'
   | Call a b ok, Call a' b' ok' => Nat.eqb a a' && Nat.eqb b b' && Bool.eqb ok ok'
-  | Listed n ss sb rg, Listed n' ss' sb' rg' =>
-    Nat.eqb n n' && perm_eqb smeta_eqb ss ss' && perm_eqb sub_eqb sb sb' && perm_eqb String.eqb rg rg'
+  | Listed n ss sb rg pd, Listed n' ss' sb' rg' pd' =>
+    Nat.eqb n n' && perm_eqb smeta_eqb ss ss' && perm_eqb sub_eqb sb sb' && perm_eqb String.eqb rg rg' && Nat.eqb pd pd'
   | _, _ => false
   end.
 
